@@ -146,17 +146,14 @@ func GetInstantiatedType(t Type, genericTypes map[string]Type) Type {
 	}
 
 	if generic, ok := CastGeneric(instantiatedType); ok {
+		// the substituted type is already the actual type, it's own
+		// type parameters must not be substituted again
 		instantiatedType = genericTypes[generic.Name]
-	}
-
-	if structType, isStruct := CastStruct(instantiatedType); isStruct && structType.genericType != nil {
+	} else if structType, isStruct := CastStruct(instantiatedType); isStruct && structType.genericType != nil {
 		instantiationTypes := make([]Type, len(structType.instantiatedWith))
 		for i, t := range structType.instantiatedWith {
-			if generic, isGeneric := CastGeneric(t); isGeneric {
-				instantiationTypes[i] = genericTypes[generic.String()]
-			} else {
-				instantiationTypes[i] = t
-			}
+			// the type arguments may themselves contain type parameters (e.g. T-Vektor2)
+			instantiationTypes[i] = GetInstantiatedType(t, genericTypes)
 		}
 
 		if instantiation := GetInstantiatedStructType(structType.genericType, instantiationTypes); instantiation == nil {
